@@ -63,9 +63,11 @@ type World struct {
 	STFrac      bool
 	ST          time.Time
 	SharedHost  bool
-	Reps        int    // concurrent callers validating this same world (ValidateContext only)
-	TSADefect   int    // C15: defect of the TSA chain (purpose timestamping)
-	CloneOf     *World // soak: same chain and URLs as this world, other contents
+	Reps        int       // concurrent callers validating this same world (ValidateContext only)
+	TSADefect   int       // C15: defect of the TSA chain (purpose timestamping)
+	UseSysRoot  bool      // C15: the chain hangs under the process's host-trusted root
+	InvBase     time.Time // reference instant of invalidity dates when no signing time is supplied (zero = stBase)
+	CloneOf     *World    // soak: same chain and URLs as this world, other contents
 	// materialised
 	OtherCA    *Cert
 	Unrelated  *Key
